@@ -20,6 +20,7 @@ type c02Cfg struct {
 	LateMs   int64  `json:"allowed_lateness_ms"`
 	MaxL     int    `json:"max_len"`
 	Specials bool   `json:"with_garbage_rows"`
+	Pusher   bool   `json:"second_key_pushes_watermark,omitempty"`
 }
 
 // event alphabet: normal timestamps (ms) and three kinds of garbage rows
@@ -41,7 +42,10 @@ func c02Configs(tier string) []c02Cfg {
 	for _, kind := range []string{"tumbling", "sliding", "session"} {
 		for _, ooo := range []int64{0, 2000} {
 			for _, late := range []int64{0, 1000, 3000} {
-				out = append(out, c02Cfg{kind, ooo, late, maxL, true})
+				out = append(out, c02Cfg{Kind: kind, OOOMs: ooo, LateMs: late, MaxL: maxL, Specials: true})
+				if kind == "session" {
+					out = append(out, c02Cfg{Kind: kind, OOOMs: ooo, LateMs: late, MaxL: maxL, Pusher: true})
+				}
 			}
 		}
 	}
@@ -56,6 +60,10 @@ func c02SQL(c c02Cfg) string {
 	case "session":
 		win = "k, SessionWindow('2000ms')"
 	}
+	sel := "count(*) AS c"
+	if c.Kind == "session" {
+		sel = "k, count(*) AS c"
+	}
 	with := "TIMESTAMP='ts', TIMEUNIT='ms'"
 	if c.OOOMs > 0 {
 		with += fmt.Sprintf(", MAXOUTOFORDERNESS='%dms'", c.OOOMs)
@@ -63,16 +71,50 @@ func c02SQL(c c02Cfg) string {
 	if c.LateMs > 0 {
 		with += fmt.Sprintf(", ALLOWEDLATENESS='%dms'", c.LateMs)
 	}
-	return fmt.Sprintf("SELECT count(*) AS c, collect(id) AS ids, window_start() AS ws, window_end() AS we FROM stream GROUP BY %s WITH (%s)", win, with)
+	return fmt.Sprintf("SELECT %s, collect(id) AS ids, window_start() AS ws, window_end() AS we FROM stream GROUP BY %s WITH (%s)", sel, win, with)
 }
 
 type c02Ev struct {
-	ID int   `json:"id"`
-	TS int64 `json:"ts"` // >= 0 normal, < 0 garbage kind
+	ID  int    `json:"id"`
+	TS  int64  `json:"ts"` // >= 0 normal, < 0 garbage kind
+	Key string `json:"k,omitempty"` // "" = "a"
+}
+
+func (e c02Ev) key() string {
+	if e.Key == "" {
+		return "a"
+	}
+	return e.Key
+}
+
+// c02Sym is one symbol of a script alphabet.
+type c02Sym struct {
+	TS  int64
+	Key string
+}
+
+// c02Symbols: the script alphabet of a configuration. Session windows with a single key never close before the
+// sentinel (every row extends the open session), so their late-update path needs a second key whose rows only
+// push the watermark: key a rows at/inside the first session, key b rows at and beyond its end.
+func c02Symbols(c c02Cfg) []c02Sym {
+	var out []c02Sym
+	if c.Pusher {
+		for _, t := range []int64{10000, 11000, 11999, 9000} {
+			out = append(out, c02Sym{t, "a"})
+		}
+		for _, t := range []int64{12000, 13000, 14500, 16000, 20000} {
+			out = append(out, c02Sym{t, "b"})
+		}
+		return out
+	}
+	for _, t := range c02Alphabet {
+		out = append(out, c02Sym{t, ""})
+	}
+	return out
 }
 
 func c02Row(e c02Ev) Row {
-	r := Row{"id": e.ID, "k": "a"}
+	r := Row{"id": e.ID, "k": e.key()}
 	switch e.TS {
 	case c02Fut:
 		r["ts"] = sched.Base.UnixMilli() + 25*3600*1000
@@ -86,6 +128,7 @@ func c02Row(e c02Ev) Row {
 }
 
 type c02Del struct {
+	Key    string // session results carry their key
 	WID    string
 	WS, WE int64
 	IDs    []int
@@ -99,7 +142,11 @@ func c02Deliveries(r detResult) []c02Del {
 			ws, _ := num(row["ws"])
 			we, _ := num(row["we"])
 			wid, _ := row["window_id"].(string)
-			out = append(out, c02Del{WID: wid, WS: int64(ws) / 1000000, WE: int64(we) / 1000000, IDs: sortedInts(idList(row["ids"])), AtOps: r.AtOps[bi]})
+			key, _ := row["k"].(string)
+			if key != "" {
+				wid = key + "/" + wid // sessions of different keys may share their bounds
+			}
+			out = append(out, c02Del{Key: key, WID: wid, WS: int64(ws) / 1000000, WE: int64(we) / 1000000, IDs: sortedInts(idList(row["ids"])), AtOps: r.AtOps[bi]})
 		}
 	}
 	return out
@@ -190,7 +237,7 @@ func c02Check(c c02Cfg, evs []c02Ev, ds []c02Del) (kind, what string) {
 			tooLate := false
 			inFired := false
 			for wid, f := range firstAt {
-				if e.TS < f.WS || e.TS >= f.WE {
+				if e.TS < f.WS || e.TS >= f.WE || (f.Key != "" && f.Key != e.key()) {
 					continue
 				}
 				inFired = true
@@ -310,7 +357,8 @@ func (c02) Run(u fw.Unit) fw.Result {
 	sql := c02SQL(c)
 	idx := 0
 	for L := 1; L <= c.MaxL; L++ {
-		sequences(L, len(c02Alphabet), func(seq []int) {
+		syms := c02Symbols(c)
+		sequences(L, len(syms), func(seq []int) {
 			idx++
 			if idx%sp.Shards != sp.Shard {
 				return
@@ -318,8 +366,8 @@ func (c02) Run(u fw.Unit) fw.Result {
 			var evs []c02Ev
 			nGarbage := 0
 			for i, x := range seq {
-				evs = append(evs, c02Ev{ID: i + 1, TS: c02Alphabet[x]})
-				if c02Alphabet[x] < 0 {
+				evs = append(evs, c02Ev{ID: i + 1, TS: syms[x].TS, Key: syms[x].Key})
+				if syms[x].TS < 0 {
 					nGarbage++
 				}
 			}
@@ -380,7 +428,7 @@ func (c02) Run(u fw.Unit) fw.Result {
 func (c02) Describe(tier string) fw.Description {
 	return fw.Description{
 		Level: "model_checking",
-		Rule: "bounded-exhaustive: all event scripts of length 1..L over 8 timestamps (on time, late into a fired window inside / beyond the allowance, early) plus at most one garbage row (timestamp now+25h, missing ts, non-numeric ts) x {tumbling 2s, sliding 4s/2s, session 2s} x MAXOUTOFORDERNESS {0,2s} x ALLOWEDLATENESS {0,1s,3s}, followed by a far sentinel; executed on the real engine with the eager feed (every goroutine runs to quiescence after each Emit, so the set of rows ingested before each delivery is known exactly) and the virtual clock; monitors: (1) a delivery only when max ingested ts >= end + MAXOUTOFORDERNESS, (2) every event not older than the watermark on arrival is reported, (3) a late event into a fired window inside the allowance causes a re-delivery with the same window_id and contents = previous + event, nothing else is re-delivered, an event beyond the allowance is never reported, (4) a script with a garbage row delivers exactly what the script without it delivers; non-trivial = >= 2 deliveries; plus W-level schedule exploration (<= bound deviations) of the tumbling and sliding window objects on 4 late-event scripts with schedule-safe monitors on the observation log (delivery only after a started Add carried ts >= end+OOO; on-time events not lost; a re-delivery only inside the Add of a late event of that window inside the allowance, contents = previous + event; a window fired before the Add started and inside the allowance must be re-delivered)",
+		Rule: "bounded-exhaustive: all event scripts of length 1..L over 8 timestamps (on time, late into a fired window inside / beyond the allowance, early) plus at most one garbage row (timestamp now+25h, missing ts, non-numeric ts) x {tumbling 2s, sliding 4s/2s, session 2s; session also with a two-key alphabet in which key b only pushes the watermark, so that key a's session fires and receives late rows} x MAXOUTOFORDERNESS {0,2s} x ALLOWEDLATENESS {0,1s,3s}, followed by a far sentinel; executed on the real engine with the eager feed (every goroutine runs to quiescence after each Emit, so the set of rows ingested before each delivery is known exactly) and the virtual clock; monitors: (1) a delivery only when max ingested ts >= end + MAXOUTOFORDERNESS, (2) every event not older than the watermark on arrival is reported, (3) a late event into a fired window inside the allowance causes a re-delivery with the same window_id and contents = previous + event, nothing else is re-delivered, an event beyond the allowance is never reported, (4) a script with a garbage row delivers exactly what the script without it delivers; non-trivial = >= 2 deliveries; plus W-level schedule exploration (<= bound deviations) of the tumbling and sliding window objects on 4 late-event scripts with schedule-safe monitors on the observation log (delivery only after a started Add carried ts >= end+OOO; on-time events not lost; a re-delivery only inside the Add of a late event of that window inside the allowance, contents = previous + event; a window fired before the Add started and inside the allowance must be re-delivered)",
 		Bounds:      map[string]any{"max_len": map[string]int{"quick": 4, "thorough": 5}, "alphabet_ms": c02Times, "garbage_rows": []string{"now+25h", "no ts", "ts='abc'"}},
 		Assumptions: []string{"an event older than the watermark whose window has not fired yet may be kept or dropped (both accepted)", "schedule dimension: the tumbling and sliding window objects are additionally driven under the schedule explorer for 4 late-event scripts (see rule)"},
 	}
